@@ -506,9 +506,12 @@ impl<'t, 'a> Renderer<'t, 'a> {
                     Some(i) => (&body[..i + 1], &body[i + 1..]),
                     None => ("", body.as_str()),
                 };
-                match k % 3 {
+                match k % 5 {
                     0 => format!("{}./{}", head, tail),
                     1 => format!("{}zz/../{}", head, tail),
+                    // climbing more than one level at a time, and twice in a row
+                    3 => format!("{}zz/yy/../../{}", head, tail),
+                    4 => format!("{}zz/../yy/.././{}", head, tail),
                     _ => {
                         if head.is_empty() {
                             format!(".//{}", tail)
